@@ -15,6 +15,37 @@ about reachability, so the model appends unconditionally.) -/
 def addUse (g : Graph) (x y : Nat) : Graph :=
   ⟨g.nodes.modify x (fun nd => { nd with uses := nd.uses ++ [y] })⟩
 
+/-- several added references: `addUse` for every `(by, used)` pair in turn -/
+def addUses (g : Graph) (es : List (Nat × Nat)) : Graph :=
+  es.foldl (fun g e => addUse g e.1 e.2) g
+
+/-- Executable form of the hypotheses of `results_perm_invariant` for a renumbering given as
+a table `f` with inverse table `finv` (both of length `g.N`): `g'` is `g` with nodes
+renumbered by `f` and edge lists equal as sets.  Run by the driver on the REAL graphs of a
+package and of its permuted copy (`iso_check_sound`). -/
+def isoHyp (g g' : Graph) (f finv : List Nat) : Bool :=
+  let n := g.N
+  let fa := fun a => f.getD a 0
+  let fi := fun b => finv.getD b 0
+  g'.N == n && fa 0 == 0 &&
+  (List.range n).all (fun a => decide (fa a < n) && fi (fa a) == a && decide (fi a < n) && fa (fi a) == a) &&
+  (List.range n).all (fun a =>
+    (g.usesOf a).all (fun b => (g'.usesOf (fa a)).contains (fa b)) &&
+    (g'.usesOf (fa a)).all (fun c => (g.usesOf a).contains (fi c)) &&
+    (g.ownsOf a).all (fun b => (g'.ownsOf (fa a)).contains (fa b)) &&
+    (g'.ownsOf (fa a)).all (fun c => (g.ownsOf a).contains (fi c)))
+
+/-- Executable form of the hypotheses of `used_mono_embed`: `f` maps the nodes of `g` to
+nodes of `g'`, root to root and only the root to the root, and every use edge of `g` is a
+use edge of `g'`.  Run by the driver on the REAL graphs of a package and of the package
+with one added reference (`embed_check_sound`). -/
+def embedHyp (g g' : Graph) (f : List Nat) : Bool :=
+  let fa := fun a => f.getD a 0
+  fa 0 == 0 &&
+  (List.range g.N).all (fun a =>
+    (a == 0 || fa a != 0) &&
+    (g.usesOf a).all (fun b => (g'.usesOf (fa a)).contains (fa b)))
+
 /-- `unusedKey{pkgPath, base, line, name}` -/
 structure Key where
   pkg : String
